@@ -17,7 +17,7 @@ PROPERTY = 'C09'
 META = {
     'level': 'exploration',
     'technique': 'offline history checkers (exactly-once/in-order per session, torn-read detector with unique stamps, WGL linearizability search against an array model, private-slice conservation) over histories recorded under a perturbed scheduler',
-    'text': 'Cold starts: a freshly started simulator receives the first frames of 6..12 sessions at once (barrier), after which every tag must still be its own storage (a distinct pattern written to each tag is read back from it). The real TCP server runs in its own process started by a harness launcher that sets sys.setswitchinterval(1e-5) (thorough: plus time.sleep(0) yield injection at random LINE events '
+    'text': 'Before the concurrent phases three sessions end badly on the same server (half a header, an unprocessable frame, a reset); yield injection also opens windows inside the element-by-element reply encoders. Cold starts: a freshly started simulator receives the first frames of 6..12 sessions at once (barrier), after which every tag must still be its own storage (a distinct pattern written to each tag is read back from it). The real TCP server runs in its own process started by a harness launcher that sets sys.setswitchinterval(1e-5) (thorough: plus time.sleep(0) yield injection at random LINE events '
             'in automata/device/logix/ucmm/main via sys.monitoring; no repository change). 2..12 client threads drive few tags hard: a shared DINT[8] written whole with unique stamps and read '
             'whole (single requests and bundles), short mixed histories on INT[4] tags with unique values for the linearizability search, and private slices of a DINT[64]. Call time is taken '
             'before sendall, return time after the complete reply frame, one monotonic clock; monitor state is per thread until join. Evidence reports what was actually interleaved: overlapping '
